@@ -17,7 +17,8 @@ Inductive op :=
 | OpR                                    (* restart: new Store over the same DBs, fresh index, Bootstrap *)
 | OpReset (epoch : N) (raw : list (N * N))
 | OpM (id : N)                           (* merged highest-before clock of a processed event *)
-| OpG (f : N).                           (* GetFrameRoots *)
+| OpG (f : N)                            (* GetFrameRoots *)
+| OpQ (a b : N).                         (* ForklessCause(a, b) asked of the instance's index (both processed) *)
 
 Inductive obs :=
 | ObsSkip (why : N)                      (* 1 already processed, 2 other epoch, 3 parent not processed, 4 creator unknown *)
@@ -26,7 +27,8 @@ Inductive obs :=
 | ObsR (r : option err) (bl : list block) (ldf epoch : N)
 | ObsReset (ldf epoch : N)
 | ObsM (clock : list (bool * N))
-| ObsG (rs : list (N * N)).
+| ObsG (rs : list (N * N))
+| ObsQ (r : bool).
 
 (* sealing policy as data: (epoch, decided frame, new validators as Builder.Set calls) *)
 Definition policy := list (N * N * list (N * N)).
@@ -94,6 +96,11 @@ Definition step (i : inst) (o : op) : obs * inst * bool :=
     then (ObsM (map (fun x => (is_fork x, fst x)) (merged (l_idx st) id)), i, false)
     else (ObsSkip 3, i, false)
   | OpG f => (ObsG (map (fun r => (r_val r, r_id r)) (get_frame_roots st f)), i, false)
+  | OpQ a b =>
+    if mem a (i_proc i) && mem b (i_proc i)
+    then let '(r, st') := fc_cached fcc_cap st a b in
+         (ObsQ r, {| i_st := st'; i_es := i_es i; i_proc := i_proc i |}, false)
+    else (ObsSkip 3, i, false)
   end.
 
 Fixpoint run (i : inst) (ops : list op) : list obs :=
